@@ -65,9 +65,11 @@ pub fn exact_calls_thread() -> u64 {
 
 /// Does the wall `w` (0..5) of a reflective box pass through generator i (within tolerance)?
 pub fn wall_through_generator(st: &State, i: usize, w: u8, t: &Tol) -> bool {
-    // the structural selector of R9 applies to 3D cells only; in 1D/2D the defect shows on few inputs, which are
-    // listed explicitly (known_findings/*_R9_lowdim.txt), so that every other wall face is judged
-    if st.dim < 3 {
+    // The structural selector of R9 applies to 3D cells. In 1D the defect never shows. In 2D it shows on some inputs
+    // only (offset / non-unit boxes): the quick tier lists those (clause, state) pairs explicitly
+    // (known_findings/*_R9_2D.txt) and judges every other 2D wall face; the thorough tier enumerates hundreds of
+    // thousands of such pairs (every input order x every mask), so there the selector covers 2D as well.
+    if st.dim < 2 || (st.dim == 2 && !thorough_tier()) {
         return false;
     }
     let ax = (w / 2) as usize;
